@@ -364,7 +364,7 @@ PROPS["C05"] = {
     "bounded": lambda tier: [("filter::verif::f_count_filter", "<= 6 observations")],
     "design_ref": "DESIGN.md §6 C05",
     "undecided": [
-        "the grouping step IS under contract per bucket (unit groupkernel, the real body of `for mut kmer_vec in kmer_buckets`, rule R15 + R21): each distinct k-mer of the bucket is summarised exactly once, over exactly its observations, in input order, and is recorded iff requested / accepted - RELATIVE TO three assumed library meanings stated as seams: slice::sort_by_key is a stable sort (a permutation that makes equal keys contiguous and keeps their input order), itertools group_by yields the maximal runs of equal consecutive keys, KmerSummarizer::summarize is a function of its items; that the buckets together hold every observation exactly once is obskernel + passplan, and lemma_bucket_class_is_global (proved) carries a k-mer's class inside its bucket to its class in the whole input (a bucket is the in-order subsequence of the observations whose k-mer falls into it); the closing BoomHashMap2::new is boomphf (assumed: stores the given triples)",
+        "the grouping step IS under contract per bucket (unit groupkernel, the real body of `for mut kmer_vec in kmer_buckets`, rule R15 + R21): each distinct k-mer of the bucket is summarised exactly once, over exactly its observations, in input order, and is recorded iff requested / accepted - RELATIVE TO three assumed library meanings stated as seams: slice::sort_by_key is a stable sort (a permutation that makes equal keys contiguous and keeps their input order), itertools group_by yields the maximal runs of equal consecutive keys, KmerSummarizer::summarize is a function of its items; that the buckets together hold every observation exactly once is obskernel + passplan, lemma_fold_is_subseq (proved) shows that folding the observation step over the input leaves in a bucket the in-order subsequence of the observations whose k-mer falls into it, and lemma_bucket_class_is_global (proved) carries a k-mer's class inside its bucket to its class in the whole input; that the two outer loops of filter_kmers are exactly this fold is by inspection (they are not extracted); the closing BoomHashMap2::new is boomphf (assumed: stores the given triples)",
         "the two outer loops (over passes and reads) are not under contract; the payload `d.clone()` is unspecified; what happens to a group AFTER summarize is (summarize::record_group, rule R15: the k-mer joins the all-k-mers list exactly when requested, and (k-mer, extensions, summary) join the table exactly when the summarizer accepted)",
         "CountFilter::summarize and CountFilterSet::summarize ARE proved as whole functions (unit summarize: count = number of observations capped at 65535, accepted iff count >= threshold, extensions = union over all observations; the set summariser returns exactly the payloads observed) - at the instance F = by-value iterator of a Vec of their generic item source (R21), CountFilterSet for at most i32::MAX observations (its counter is an i32) and relative to assumed contracts of Vec::sort / Vec::dedup (both keep the set of values)",
         "CountFilterSet::summarize has no bounded cross-check on the real generic function (Vec sort + dedup is intractable for CBMC even at 3 observations: 12 GB, > 40 min)"],
